@@ -47,12 +47,12 @@ import (
 
 // PubStep is one scripted reaction to a PublishRequest.
 type PubStep struct {
-	Kind   string  `json:"kind"`             // data | keepalive | fault | badstatus | drop
-	Sub    int     `json:"sub,omitempty"`    // index among the server's subscriptions (sorted by id), mod their number
-	Pick   int     `json:"pick,omitempty"`   // data: which of the 4 lowest unused sequence numbers (0 = in order)
-	Status uint32  `json:"status,omitempty"` // fault / badstatus
-	Res    []uint8 `json:"res,omitempty"`    // results for the acknowledgements of the request, cycled: 0 Good 1 BadSequenceNumberUnknown 2 BadSubscriptionIdInvalid 3 BadInternalError
-	Count  int     `json:"count,omitempty"`  // result count: 0 right, -1 one fewer, +1 one more, -99 none
+	Kind   string `json:"kind"`             // data | keepalive | fault | badstatus | drop
+	Sub    int    `json:"sub,omitempty"`    // index among the server's subscriptions (sorted by id), mod their number
+	Pick   int    `json:"pick,omitempty"`   // data: which of the 4 lowest unused sequence numbers (0 = in order)
+	Status uint32 `json:"status,omitempty"` // fault / badstatus
+	Res    []int  `json:"res,omitempty"`    // results for the acknowledgements of the request, cycled: 0 Good 1 BadSequenceNumberUnknown 2 BadSubscriptionIdInvalid 3 BadInternalError
+	Count  int    `json:"count,omitempty"`  // result count: 0 right, -1 one fewer, +1 one more, -99 none
 }
 
 // AckCase is the replayable unit of TestAcks.
@@ -114,11 +114,11 @@ func genAckCase(t *rapid.T) AckCase {
 		s.Sub = rapid.IntRange(0, 2).Draw(t, "sub")
 		if s.Kind == "data" || s.Kind == "keepalive" || s.Kind == "badstatus" {
 			if rapid.IntRange(0, 9).Draw(t, "allGood") < 6 {
-				s.Res = []uint8{0}
+				s.Res = []int{0}
 			} else {
 				k := rapid.IntRange(1, 4).Draw(t, "nres")
 				for j := 0; j < k; j++ {
-					s.Res = append(s.Res, uint8(rapid.IntRange(0, 3).Draw(t, "res")))
+					s.Res = append(s.Res, rapid.IntRange(0, 3).Draw(t, "res"))
 				}
 			}
 			s.Count = rapid.SampledFrom([]int{0, 0, 0, 0, 0, 0, 0, 0, 0, 0, 0, -1, 1, -99}).Draw(t, "count")
@@ -143,8 +143,9 @@ func (c AckCase) hasDrop() bool {
 type ack struct{ sub, seq uint32 }
 
 type capReq struct {
-	idx     int
+	idx     int // order of arrival at the server over all connections
 	conn    int
+	seq     int // order of arrival on its connection
 	reqID   uint32
 	acks    []ack
 	kind    string          // how it was answered: held | data | keepalive | fault | badstatus | drop | tail | nosub
@@ -192,7 +193,8 @@ type ackWorld struct {
 	next     int // next step
 	tail     int
 	live     map[uint32]bool
-	deleted  map[uint32]int // subscription id -> number of requests captured when it was deleted
+	deleted  map[uint32]pos // subscription id -> position of its DeleteSubscriptions request in the client's stream of publish requests
+	perConn  map[int]int    // publish requests captured per connection
 	used     map[uint32]map[uint32]bool
 	nextSub  uint32
 	tokConn  map[string]int
@@ -204,6 +206,15 @@ type ackWorld struct {
 	kinds    map[string]int
 	rescodes map[string]int
 }
+
+// pos is a position in the client's stream of publish requests: the client uses
+// one connection at a time, so (connection, arrival order on that connection)
+// orders the requests as they were sent, while the order of arrival over all
+// connections does not (a request on the old connection can be handled by the
+// server after requests on the new one).
+type pos struct{ conn, seq int }
+
+func (p pos) before(r *capReq) bool { return p.conn < r.conn || (p.conn == r.conn && p.seq <= r.seq) }
 
 type heldReq struct {
 	conn *script.Conn
@@ -259,7 +270,7 @@ func (w *ackWorld) results(s PubStep, n int) []ua.StatusCode {
 	out := make([]ua.StatusCode, m)
 	for i := range out {
 		if len(s.Res) > 0 {
-			out[i] = resCodes[int(s.Res[i%len(s.Res)])%len(resCodes)]
+			out[i] = resCodes[((s.Res[i%len(s.Res)]%len(resCodes))+len(resCodes))%len(resCodes)]
 		}
 	}
 	return out
@@ -344,7 +355,8 @@ func (w *ackWorld) handle(conn *script.Conn, req ua.Request, reqID uint32) bool 
 	case *ua.PublishRequest:
 		w.mu.Lock()
 		defer w.mu.Unlock()
-		cr := &capReq{idx: len(w.reqs), conn: conn.ID, reqID: reqID, kind: "held"}
+		cr := &capReq{idx: len(w.reqs), conn: conn.ID, seq: w.perConn[conn.ID], reqID: reqID, kind: "held"}
+		w.perConn[conn.ID]++
 		for _, a := range r.SubscriptionAcknowledgements {
 			if a != nil {
 				cr.acks = append(cr.acks, ack{a.SubscriptionID, a.SequenceNumber})
@@ -402,7 +414,7 @@ func (w *ackWorld) handle(conn *script.Conn, req ua.Request, reqID uint32) bool 
 				res[i] = ua.StatusBadSubscriptionIDInvalid
 			}
 			if _, ok := w.deleted[id]; !ok {
-				w.deleted[id] = len(w.reqs)
+				w.deleted[id] = pos{conn.ID, w.perConn[conn.ID]}
 			}
 		}
 		w.logf("conn#%d DeleteSubscriptions %v", conn.ID, r.SubscriptionIDs)
@@ -430,15 +442,22 @@ func (w *ackWorld) handle(conn *script.Conn, req ua.Request, reqID uint32) bool 
 // ---------------------------------------------------------------------------
 // oracle (pure function of the captured history)
 
-// judgeAcks returns "" or a description of the first violated clause.
-func judgeAcks(reqs []*capReq, deleted map[uint32]int) string {
-	// later[k] = indices of the requests after k on the same connection
+// judgeAcks returns "" or a description of the first violated clause. The
+// requests are judged in the order the client sent them (see pos).
+func judgeAcks(captured []*capReq, deleted map[uint32]pos) string {
+	reqs := append([]*capReq(nil), captured...)
+	sort.SliceStable(reqs, func(i, j int) bool {
+		if reqs[i].conn != reqs[j].conn {
+			return reqs[i].conn < reqs[j].conn
+		}
+		return reqs[i].seq < reqs[j].seq
+	})
+	name := func(k int) string { return fmt.Sprintf("#%d", reqs[k].idx) }
+	// indices of the requests after k on the same connection
 	laterSameConn := func(k int) []int {
 		var out []int
-		for m := k + 1; m < len(reqs); m++ {
-			if reqs[m].conn == reqs[k].conn {
-				out = append(out, m)
-			}
+		for m := k + 1; m < len(reqs) && reqs[m].conn == reqs[k].conn; m++ {
+			out = append(out, m)
 		}
 		return out
 	}
@@ -447,7 +466,7 @@ func judgeAcks(reqs []*capReq, deleted map[uint32]int) string {
 		// (i)
 		for _, a := range r.acks {
 			if _, ok := delivered[a]; !ok {
-				return fmt.Sprintf("(i) request #%d acknowledges notification %d/%d, which the server had not delivered before the request arrived", k, a.sub, a.seq)
+				return fmt.Sprintf("(i) request %s acknowledges notification %d/%d, which the server had not delivered before", name(k), a.sub, a.seq)
 			}
 		}
 		if r.kind == "data" && r.good {
@@ -474,7 +493,7 @@ func judgeAcks(reqs []*capReq, deleted map[uint32]int) string {
 						if r.results[i] != ua.StatusOK {
 							what = "BadSequenceNumberUnknown"
 						}
-						return fmt.Sprintf("(ii) the acknowledgement of notification %d/%d was answered %s in the response to request #%d (requests #%d and #%d followed on the same connection), but request #%d acknowledges it again", a.sub, a.seq, what, k, ls[0], ls[1], m)
+						return fmt.Sprintf("(ii) the acknowledgement of notification %d/%d was answered %s in the response to request %s (requests %s and %s followed on the same connection), but the later request %s acknowledges it again", a.sub, a.seq, what, name(k), name(ls[0]), name(ls[1]), name(m))
 					}
 				}
 			}
@@ -489,7 +508,7 @@ func judgeAcks(reqs []*capReq, deleted map[uint32]int) string {
 		if len(ls) < 2 {
 			continue
 		}
-		if d, ok := deleted[r.deliver.sub]; ok && d <= ls[1] {
+		if d, ok := deleted[r.deliver.sub]; ok && d.before(reqs[ls[1]]) {
 			continue // the subscription did not stay registered
 		}
 		found := false
@@ -501,7 +520,7 @@ func judgeAcks(reqs []*capReq, deleted map[uint32]int) string {
 			}
 		}
 		if !found {
-			return fmt.Sprintf("(iii) notification %d/%d was delivered in the response to request #%d, %d more requests followed (#%d and #%d on the same connection while the subscription was registered), none acknowledges it", r.deliver.sub, r.deliver.seq, k, len(reqs)-1-k, ls[0], ls[1])
+			return fmt.Sprintf("(iii) notification %d/%d was delivered in the response to request %s, %d more requests followed (%s and %s on the same connection while the subscription was registered), none acknowledges it", r.deliver.sub, r.deliver.seq, name(k), len(reqs)-1-k, name(ls[0]), name(ls[1]))
 		}
 	}
 	return ""
@@ -522,7 +541,7 @@ type ackResult struct {
 
 func executeAcks(c AckCase) (res ackResult, err error) {
 	hb := starve.Begin()
-	w := &ackWorld{c: c, live: map[uint32]bool{}, deleted: map[uint32]int{}, used: map[uint32]map[uint32]bool{}, tokConn: map[string]int{},
+	w := &ackWorld{c: c, live: map[uint32]bool{}, deleted: map[uint32]pos{}, perConn: map[int]int{}, used: map[uint32]map[uint32]bool{}, tokConn: map[string]int{},
 		t0: time.Now(), kinds: map[string]int{}, rescodes: map[string]int{}}
 	srv, e := script.Start(script.Options{Handle: w.handle, OnConn: func(*script.Conn) { w.mu.Lock(); w.conns++; w.mu.Unlock() }})
 	if e != nil {
@@ -599,10 +618,13 @@ func executeAcks(c AckCase) (res ackResult, err error) {
 	}
 
 	// ---- start the history: the newest held request gets the first step
+	// (with a publish timeout of 500 ms the held request may be about to time
+	// out at the client: it is left unanswered and the history starts with the
+	// next request)
 	w.mu.Lock()
 	w.started = true
 	w.lastReq = time.Now()
-	if n := len(w.held); n > 0 {
+	if n := len(w.held); n > 0 && !c.hasDrop() {
 		h := w.held[n-1]
 		w.process(h.conn, h.id, h.req, h.cap)
 	}
@@ -650,7 +672,7 @@ wait:
 
 	w.mu.Lock()
 	reqs := append([]*capReq(nil), w.reqs...)
-	deleted := map[uint32]int{}
+	deleted := map[uint32]pos{}
 	for k, v := range w.deleted {
 		deleted[k] = v
 	}
